@@ -399,6 +399,11 @@ func (n NaturalLanguageValues) MarshalJSON() ([]byte, error) {
 		if !empty {
 			b.Write([]byte{','})
 		}
+		if val.Ref == NilLangRef {
+			// inside a language map the value needs a key: the nil language reference is written as such
+			stringBytes(&b, []byte(val.Ref), false)
+			b.Write([]byte{':'})
+		}
 		if v, err := val.MarshalJSON(); err == nil && len(v) > 0 {
 			l, err := b.Write(v)
 			if err == nil && l > 0 {
